@@ -3,10 +3,34 @@ branches that depend on the state (`toggle` on separate lines, `get` on one line
 coverage, different branch coverage), others are straight-line (a repeated call adds no coverage)."""
 
 
+import enum
+
+
+class Mode(enum.Enum):
+    OFF = 0
+    ON = 1
+
+
 class Switch:
+    class Mark:
+        """A class nested in a class (its instances are rendered as pp_sut.Switch.Mark)."""
+
+        def __init__(self, tag=0):
+            self.tag = tag
+
     def __init__(self):
         self.on = False
         self.n = 0
+
+    @property
+    def total(self):
+        return self.n * 2
+
+    def mark(self):
+        return Switch.Mark(self.n)
+
+    def boom(self):
+        raise RuntimeError("boom")
 
     def flip(self):
         self.on = not self.on
@@ -23,3 +47,7 @@ class Switch:
     def add(self, k):
         self.n += k
         return self.n
+
+
+def mode_of(switch):
+    return Mode.ON if switch.on else Mode.OFF
